@@ -4,4 +4,6 @@ def maxRequestSize : Nat := 32768
 def defaultBufsize : Nat := 8192
 /-- every use of self.request_number in _async_request (the id written into the packet, the registration in _expecting, the increment) lies inside the acquire/try/finally-release region of self._lock: allocating a request number and putting it into the packet is one atomic step -/
 def idReadUnderLock : Bool := true
+/-- SFTPFile._prefetch_lock (a plain threading.Lock) is never asked for by a method that already holds it: no `with self._prefetch_lock:` block calls its own method or another one that takes the lock -/
+def prefetchLockNotReentered : Bool := true
 end PV.Generated.C28
